@@ -75,6 +75,11 @@ type exGen struct {
 }
 
 func (g exGen) Name() string { return g.g.Name }
+func (g exGen) write(w io.Writer, s string) {
+	if !g.g.Silent {
+		io.WriteString(w, s)
+	}
+}
 func (g exGen) Filter(c *generator.Context, t *types.Type) bool {
 	g.e.rec.Add("f:" + g.g.Name + ":" + common.Itoa(g.e.ids[t]))
 	return common.ContainsInt(g.g.Accept, g.e.ids[t])
@@ -95,7 +100,7 @@ func (g exGen) Namers(c *generator.Context) namer.NameSystems {
 }
 func (g exGen) Init(c *generator.Context, w io.Writer) error {
 	g.hook("I", c)
-	io.WriteString(w, common.ExecInitBytes(g.g.Name))
+	g.write(w, common.ExecInitBytes(g.g.Name))
 	if g.g.InitErr {
 		return errors.New(common.ExecHookErr)
 	}
@@ -103,7 +108,7 @@ func (g exGen) Init(c *generator.Context, w io.Writer) error {
 }
 func (g exGen) Finalize(c *generator.Context, w io.Writer) error {
 	g.hook("Z", c)
-	io.WriteString(w, common.ExecFinBytes(g.g.Name))
+	g.write(w, common.ExecFinBytes(g.g.Name))
 	if g.g.FinErr {
 		return errors.New(common.ExecHookErr)
 	}
@@ -120,7 +125,7 @@ func (g exGen) PackageConsts(c *generator.Context) []string {
 func (g exGen) GenerateType(c *generator.Context, t *types.Type, w io.Writer) error {
 	id := g.e.ids[t]
 	g.e.rec.Add("T:" + g.g.Name + ":" + common.Itoa(id) + ":" + ctxNamers(c))
-	io.WriteString(w, common.ExecTypeBytes(g.g.Name, id))
+	g.write(w, common.ExecTypeBytes(g.g.Name, id))
 	if common.ContainsInt(g.g.TypeErr, id) {
 		return errors.New(common.ExecHookErr)
 	}
